@@ -165,7 +165,7 @@ func cmdVC(args []string) {
 			}
 		}
 	}
-	res := runObligations(fts, dir, *timeout, nil, 6)
+	res := runObligations(fts, dir, *timeout, nil, 4)
 	ok := 0
 	for _, r := range res {
 		mark := "FAIL"
@@ -175,7 +175,7 @@ func cmdVC(args []string) {
 		}
 		fmt.Printf("%s %-70s %s %s %.2fs [%d B] %s\n", mark, strings.ReplaceAll(r.o.Name, repoPrefix+"/", ""), r.res.Status, r.res.Solver, r.res.Secs, r.res.Size, r.o.Pos)
 		if r.res.Status != "unsat" {
-			fmt.Printf("       src: %s\n       solvers: %v\n", r.o.Src, r.res.All)
+			fmt.Printf("       src: %s\n       solvers: %s\n", r.o.Src, trunc(fmt.Sprint(r.res.All), 400))
 		}
 	}
 	fmt.Printf("%d/%d discharged\n", ok, len(res))
